@@ -87,6 +87,11 @@ def check(ctx: Ctx, stream: str, i: int, op, label: str) -> None:
     st, red = safe(op.reduce)
     if st == 'ok' and not (gen.same_structure(red.in_structure(), ins) and gen.same_structure(red.out_structure(), outs)):
         ctx.fail(stream, i, f'reduce-structures:{name}', 'reduce() changes the structures', cfg)
+    elif st == 'ok':
+        st2, real_red = safe(jax.eval_shape, red.mv, ins)
+        if st2 != 'ok' or not gen.same_structure(real_red, red.out_structure()):
+            ctx.fail(stream, i, f'reduced-out-structure-dishonest:{type(red).__name__}',
+                     f'the reduced operator declares {red.out_structure()} but its mv returns {real_red}', cfg)
     # correspondence: Level-A structure rules
     rep = ctx.model.ask(['structs', esx])
     if rep[0] != 'ok' or first_diff(rep[1], struct(ins)) is not None or first_diff(rep[2], struct(outs)) is not None \
@@ -99,8 +104,26 @@ def check(ctx: Ctx, stream: str, i: int, op, label: str) -> None:
              sample={'class': name, 'x64': cfg['x64'], 'in_dtypes': dts, 'in_size': isz, 'out_size': osz})
 
 
+def mixed_case(ctx: Ctx, stream: str, i: int) -> None:
+    """mixed-dtype pytrees (any two of float16/float32/float64 available in this mode) with scalar factors and
+    diagonal operators at various positions of a chain"""
+    from furax._base.core import CompositionOperator
+    rng = ctx.rng(stream, i)
+    x64 = bool(jax.config.jax_enable_x64)
+    dts = [jnp.float16, jnp.float32] + ([jnp.float64] if x64 else [])
+    n = rng.choice([2, 3])
+    d1, d2 = rng.sample(dts, 2)
+    s = rng.choice([{'a': gen.S(n, dtype=d1), 'b': gen.S(n, dtype=d2)}, [gen.S(n, dtype=d2), gen.S(n, dtype=d1)]])
+    pool = [gen.mk_homothety, gen.mk_homothety, gen.mk_diagonal, gen.mk_diagonal_first, gen.mk_identity]
+    ops = [rng.choice(pool)(rng, s) for _ in range(rng.randint(2, 5))]
+    check(ctx, stream, i, CompositionOperator(ops), 'mixed-dtype chain')
+
+
 def run(ctx: Ctx) -> None:
     q = ctx.tier == 'quick'
+    for i in range(60 if q else 1200):
+        if ctx.want('mixed', i):
+            mixed_case(ctx, 'mixed', i)
     for i in range(150 if q else 3000):
         if ctx.want('expr', i):
             rng = ctx.rng('expr', i)
